@@ -515,7 +515,7 @@ TESTS = [
                      "reuse_rand_left_by_failed_gen", "sign_success", "reuse_after_success", "sign_attempt_after_failed_call", "failed_gen_over_live_nonce",
                      "failing_sign_on_live:sign_negated_key", "failing_sign_on_live:sign_null_out", "failing_sign_on_live:sign_other_key",
                      "failing_sign_on_live:sign_bad_cache", "failing_sign_on_live:sign_bad_session", "failing_sign_on_live:sign_null_keypair"]),
-    Test("random_histories", random_history, run_random, quick=400, thorough=10000, max_workers=4,
+    Test("random_histories", random_history, run_random, quick=1600, thorough=20000, max_workers=8,
          must_cover=["gen_alias_extra", "gen_alias_seckey", "secnonce_at_odd_address", "rand_at_odd_address", "reuse_wiped_rand_buffer",
                      "sign_success", "failing_sign_on_live:neg", "failing_sign_on_live:null_out", "failed_gen_over_live", "sign_attempt_on_dead_nonce",
                      "gen_ok_counter", "gen_ok_rand", "reuse_rand_buffer"]),
